@@ -554,6 +554,8 @@ ROUND5 = {
 
 # sixth round
 ROUND6 = {
+    'C03': ' After a failure reply the job of every in-flight unit that purge '
+           'touched must still be queued.',
     'C20': ' Part grow: updates add modules to existing or new task packages '
            'and the pipeline loads again without scan.reset (the registry of '
            'per-task factories survives, as in FSM._pipeline); the timer '
